@@ -41,11 +41,26 @@ def isEnd (cfg : Conf) : Ev → Prop
   | .deliver (b0 :: b1 :: _) _ _ => b0 = cfg.gameStr ∧ (b1 = "Over" ∨ b1 = "Abandoned.")
   | _ => False
 
+/-- the rule check neither panics nor runs out of fuel on this answer (C01/C02 own the general fact that
+`Position.Move` never does; here it is asked only of the answers that actually occur) -/
+def AnswerOK (basis : Array W) (p : Pos) (m : Move) : Prop :=
+  match p.apply basis m with
+  | .error (.panic _) => False
+  | .error (.hang _) => False
+  | _ => True
+
+/-- an announced move: `ParseServer` produced it and it is legal in the server's current position -/
+def MoveOK (cfg : Conf) (s : St) (parsed : Option Move) : Prop :=
+  match parsed, srvCur s with
+  | some m, some q => Legal cfg.basis q m
+  | _, _ => False
+
 def keywords : List String := ["P", "M", "Abandoned.", "Over", "Time", "RequestUndo", "Undo"]
 
 /-- what a playtak server sends while the game runs, relative to its own history:
 announced moves are parsed and legal in the server's position, `Undo` only with a non-empty history,
-`Over` carries a result, `Time` two numbers, `Tell` lines carry `<name>` as second word. -/
+`Over` carries a result, `Time` two numbers, `Tell` lines carry `<name>` as second word; and of an AI answer:
+checking it does not panic. -/
 def LineOK (cfg : Conf) (s : St) : Ev → Prop
   | .deliver bits parsed _ =>
     match bits with
@@ -54,19 +69,16 @@ def LineOK (cfg : Conf) (s : St) : Ev → Prop
     | b0 :: b1 :: args =>
       (b0 = "Tell" → b0 ≠ cfg.gameStr ∧ b1 ∉ keywords) ∧
       (b0 = cfg.gameStr →
-        ((b1 = "P" ∨ b1 = "M") → ∃ m q, parsed = some m ∧ srvCur s = some q ∧ Legal cfg.basis q m) ∧
+        ((b1 = "P" ∨ b1 = "M") → MoveOK cfg s parsed) ∧
         (b1 = "Over" → args ≠ []) ∧
         (b1 = "Time" → 2 ≤ args.length) ∧
         (b1 = "Undo" → s.srvMoves ≠ []))
+  | .aiReturns _ m => AnswerOK cfg.basis s.p m
   | _ => True
 
 /-- the whole trace is well-formed server traffic (checked while the loop runs) -/
 def TraceOK (cfg : Conf) : St → List Ev → Prop
   | _, [] => True
   | s, e :: es => (s.status = .running → LineOK cfg s e) ∧ TraceOK cfg (step cfg s e) es
-
-/-- the rule check never panics or hangs (C01/C02 own this fact about `Position.Move`) -/
-def RulesTotal (basis : Array W) : Prop :=
-  ∀ (p : Pos) (m : Move) (e : Err), p.apply basis m = .error e → ∃ w, e = .illegal w
 
 end Tak.Bot
